@@ -365,6 +365,10 @@ class World:
         e.connect_fut = self.loop.create_future()
         self.servers.append(e)
         self.timeline.append(("connect", (host, port)))
+        if self.auto_connect is not None:
+            # a real connect never completes synchronously: yield to the loop at least once
+            # (matters under the eager task factory, where open_connection() starts inside server_event)
+            await asyncio.sleep(0)
         if self.auto_connect is True:
             e.state = "open"
             return e.r, e.w
